@@ -62,7 +62,10 @@ HEADINGS = ["# **All bold**", "## ***bold italic***", "# **part** bold", "# plai
 LISTS = ["- a\n- b\n", "- a\n\n- b\n", "1. x\n2. y\n", "- a\n\n  second para\n- b\n", "- a\n  - n1\n  - n2\n- b\n",
          "- a\n\n  - n1\n\n  - n2\n- b\n", "> - q1\n> - q2\n", "[^f]: note\n\n    - fa\n    - fb\n", "- a\n  ```\n  code\n  ```\n- b\n",
          "* a\n* b\n\n+ c\n+ d\n", "> - q1\n>\n> - q2\n", "- a\n\n  > # h\n\n- b\n", "- a\n  > q\n- b\n", "- a\n\n  > [r]: http://x\n\n- b\n",
-         "1. x\n\n   > quote\n   >\n\n2. y\n", "> 1. x\n>\n>    more\n> 2. y\n", "- a\n\n  > - in\n  >\n  > - ner\n\n- b\n"]
+         "1. x\n\n   > quote\n   >\n\n2. y\n", "> 1. x\n>\n>    more\n> 2. y\n", "- a\n\n  > - in\n  >\n  > - ner\n\n- b\n",
+         # items that end in a block which is neither paragraph nor blank line: rule, HTML block, code, table
+         "- ***\n\n- b\n", "- ***\n- b\n", "1. x\n   ***\n\n2. y\n", "1. x\n   ***\n2. y\n", "- <div>\n  x\n  </div>\n\n- b\n", "- <div>\n  x\n  </div>\n- b\n",
+         "- a\n\n  | t | u |\n  |---|---|\n  | 1 | 2 |\n\n- b\n", "- a\n\n      code\n\n- b\n"]
 
 
 def list_shapes(text):
